@@ -75,6 +75,10 @@ def run(chk, repo, tier):
     P5 = chk.rule('P5', 'FIX is removed wherever the reader looks for it (recursively inside omega items for blocks)',
                   floor=1)
     A5 = chk.rule('A5', 'LALR-accepted token sentences are accepted by lexer+parser when spelled out', floor=200)
+    P6 = chk.rule('P6', 'LCS edit script: branches consume the right element, the longer common subsequence is followed, ties '
+                        'emit the insertion last (deletions before insertions in a hunk)', floor=4)
+    from rules import C04b
+    C04b.run_p6(chk, P6, repo)
 
     tm = repo.module(f'{NM}.records.theta_record')
     om = repo.module(f'{NM}.records.omega_record')
@@ -211,48 +215,45 @@ def run(chk, repo, tier):
     if ct is None:
         raise AnalysisError('create_theta_record not found')
 
-    def choose(stmts, env, out):
-        for s_ in stmts:
-            if isinstance(s_, ast.If):
-                t = s_.test
-                v = None
-                if isinstance(t, ast.Compare) and isinstance(t.left, ast.Name) and t.left.id in env \
-                        and len(t.ops) == 1:
-                    try:
-                        c = eval(compile(ast.Expression(t.comparators[0]), '<c>', 'eval'), {'__builtins__': {}}, {})
-                        x = env[t.left.id]
-                        v = {ast.Lt: x < c, ast.LtE: x <= c, ast.Gt: x > c, ast.GtE: x >= c, ast.Eq: x == c,
-                             ast.NotEq: x != c}[type(t.ops[0])]
-                    except Exception:
-                        v = None
-                if v is True:
-                    choose(s_.body, env, out)
-                elif v is False:
-                    choose(s_.orelse, env, out)
-                continue
-            if isinstance(s_, ast.AugAssign) and unparse(s_.target) == 'code':
-                out.append(s_.value)
-    combos = {'both finite': {'lower': 0.5, 'upper': 5.0}, 'only lower': {'lower': 0.5, 'upper': float('inf')},
-              'only upper': {'lower': -float('inf'), 'upper': 5.0}, 'none': {'lower': -float('inf'), 'upper': float('inf')}}
-    for label, env in combos.items():
-        parts = []
-        choose(ct.node.body, env, parts)
-        forms = [p_ for p_ in parts if isinstance(p_, ast.JoinedStr) and any(
-            isinstance(v, ast.FormattedValue) and unparse(v.value) == 'init' for v in p_.values)]
-        if len(forms) != 1:
-            raise AnalysisError(f'P4: cannot determine the theta text template for the case `{label}` '
-                                f'(found {[unparse(p_) for p_ in parts]})')
-        tpl = ''.join(v.value if isinstance(v, ast.Constant) else '{' + unparse(v.value) + '}' for v in forms[0].values)
-        slots = tpl.strip('()').split(',') if tpl.startswith('(') else [tpl]
-        chk.instance(P4, f'{label}: {tpl}')
-        want = {'both finite': ['{lower}', '{init}', '{upper}'], 'only lower': ['{lower}', '{init}'],
-                'only upper': ['-INF', '{init}', '{upper}'], 'none': ['{init}']}[label]
-        if [x.strip().upper() if x.strip().startswith('-') else x.strip() for x in slots] != want:
-            chk.violation(P4, um.rel, 'create_theta_record', f'{label}: {tpl}',
-                          f'a new theta with {label} bound(s) must be written as {"(" + ",".join(want) + ")" if len(want) > 1 else want[0]}: '
-                          f'the reader assigns roles by position (first of two = lower bound)', line=forms[0].lineno,
-                          witness='add_population_parameter(model, "P", 0.3, upper=1): the code says (0.3,1) which is re-read '
-                                  'as lower=0.3, init=1, upper=inf')
+    from sa import strtemplate as ST
+    combos = {'both finite': (0.5, 5.0), 'only lower': (0.5, float('inf')), 'only upper': (-float('inf'), 5.0),
+              'none': (-float('inf'), float('inf'))}
+    pname = ct.params[0]
+    for label, (lo, up) in combos.items():
+        for fixed in (False, True):
+            ev = ST.Eval({f'{pname}.lower': ST.Sym('lower', lo), f'{pname}.upper': ST.Sym('upper', up),
+                          f'{pname}.init': ST.Sym('init', 0.3), f'{pname}.fix': fixed, f'{pname}.name': ST.Sym('name')})
+            try:
+                ev.run(ct.node.body)
+            except ST.Undecidable as e:
+                raise AnalysisError(f'P4: cannot determine the theta text for the case `{label}`: {e}')
+            texts = [a[0] for fn, a in ev.calls if fn == 'create_record' and a and isinstance(a[0], str)]
+            if len(texts) != 1:
+                raise AnalysisError(f'P4: text passed to create_record not determined for `{label}` ({ev.calls})')
+            text = texts[0]
+            body = text.split(';')[0].replace('$THETA', '').strip()
+            has_fix = body.upper().endswith('FIX')
+            if has_fix:
+                body = body[:-3].strip()
+            tpl = body
+            slots = tpl.strip('()').split(',') if tpl.startswith('(') else [tpl]
+            chk.instance(P4, f'{label}, fix={fixed}: {text!r}')
+            want = {'both finite': ['{lower}', '{init}', '{upper}'], 'only lower': ['{lower}', '{init}'],
+                    'only upper': ['-INF', '{init}', '{upper}'], 'none': ['{init}']}[label]
+            got = [x.strip().upper() if x.strip().startswith('-') else x.strip() for x in slots]
+            if got != want or (tpl.startswith('(') != (len(want) > 1)) or (tpl.startswith('(') and not tpl.endswith(')')):
+                chk.violation(P4, um.rel, 'create_theta_record', f'{label}: {tpl}',
+                              f'a new theta with {label} bound(s) must be written as {"(" + ",".join(want) + ")" if len(want) > 1 else want[0]}: '
+                              f'the reader assigns roles by position (first of two = lower bound)', line=ct.node.lineno,
+                              witness='add_population_parameter(model, "P", 0.3, upper=1): the code says (0.3,1) which is re-read '
+                                      'as lower=0.3, init=1, upper=inf')
+            if has_fix != fixed:
+                chk.violation(P4, um.rel, 'create_theta_record', f'{label}: FIX written {has_fix} for fix={fixed}',
+                              'the FIX keyword does not follow parameter.fix', line=ct.node.lineno,
+                              witness='add a fixed parameter: it is estimated (or an estimated one is fixed)')
+            if '{name}' not in text.split(';', 1)[-1]:
+                chk.violation(P4, um.rel, 'create_theta_record', text, 'the parameter name comment is missing',
+                              line=ct.node.lineno, witness='the new theta is re-read as THETA(n) instead of its name')
     # ---------------------------------------------------------------- P5
     bf = orr.methods.get('_block_flags')
     upd = orr.methods.get('update')
